@@ -1352,7 +1352,11 @@ trap_exit() {
 	_steps="$(step_path "${_builddir}")"
 
 	# Generate the report if a step failed or the end step is reached.
-	if has_steps "${_steps}" &&
+	# Requires the lock to be owned by this invocation as the report path
+	# is derived from it, otherwise the report of another running invocation
+	# would be overwritten.
+	if echo "${_builddir}" | cmp -s - "${_robsddir}/.running" &&
+	   has_steps "${_steps}" &&
 	   { [ "${_err}" -ne 0 ] || step_eval -n end "${_steps}" 2>/dev/null; }
 	then
 		# Do not send mail during interactive invocations.
